@@ -134,11 +134,32 @@ func vReplay(idx int, sc *vScript, packed bool) vResult { //nolint:cyclop,gocogn
 				fb.currentMessageSequenceNumber, fb.totalFragmentCount, fb.totalBufferSize)
 		}
 	}
+	// packed mode: a twin buffer receives the same fragments one record each; how fragments are packed into records must
+	// not change what the buffer holds or surfaces (the law is between two uses of the real code, no model involved)
+	var twin *FragmentBuffer
+	if packed {
+		twin = New()
+	}
+	sameAsTwin := func(i int, what string) {
+		if twin == nil {
+			return
+		}
+		if fb.currentMessageSequenceNumber != twin.currentMessageSequenceNumber || fb.totalFragmentCount != twin.totalFragmentCount ||
+			fb.totalBufferSize != twin.totalBufferSize {
+			viol("step %d (%s): fragments sharing a record are handled differently from the same fragments in records of their own: "+
+				"cursor/fragments/bytes %d/%d/%d against %d/%d/%d", i, what, fb.currentMessageSequenceNumber, fb.totalFragmentCount, fb.totalBufferSize,
+				twin.currentMessageSequenceNumber, twin.totalFragmentCount, twin.totalBufferSize)
+			twin = nil // one report per script
+		}
+	}
 	skip := 0 // pushes already delivered inside a packed record: only their bookkeeping remains
 	for i, st := range sc.Steps {
 		switch st.Op {
 		case "push":
 			cursor := int(fb.currentMessageSequenceNumber)
+			if twin != nil {
+				_, _, _ = twin.Push(vRecord(st.F))
+			}
 			switch {
 			case skip > 0:
 				skip--
@@ -187,9 +208,14 @@ func vReplay(idx int, sc *vScript, packed bool) vResult { //nolint:cyclop,gocogn
 			}
 			if skip == 0 { // inside a packed record the model's intermediate states do not exist
 				obs(i, st.Obs)
+				sameAsTwin(i, "push")
 			}
 		case "advance":
 			fb.AdvanceTo(uint16(st.To)) //nolint:gosec
+			if twin != nil {
+				twin.AdvanceTo(uint16(st.To)) //nolint:gosec
+				sameAsTwin(i, "advance")
+			}
 			if st.To > nextPop {
 				nextPop = st.To
 			}
@@ -197,6 +223,14 @@ func vReplay(idx int, sc *vScript, packed bool) vResult { //nolint:cyclop,gocogn
 		case "pop", "pop-nil", "pop-panic":
 			cursor := int(fb.currentMessageSequenceNumber)
 			content, p := vPop(fb)
+			if twin != nil && p == "" {
+				tc, tp := vPop(twin)
+				if tp == "" && !bytes.Equal(tc, content) {
+					viol("step %d (pop): fragments sharing a record surface %v, the same fragments in records of their own surface %v", i, content, tc)
+					twin = nil
+				}
+				sameAsTwin(i, "pop")
+			}
 			if p != "" {
 				res.Panic = p
 				viol("step %d: Pop panicked: %s", i, p)
